@@ -1,7 +1,7 @@
 (* C19: the partial operations (unwrap, expect, panic!, assert!, unreachable!, indexing) of the
    project-file parsers and of the conversion, grouped by (file, function) with their number at the
    last review.  Every group was reviewed against the exhaustive enumeration of single-edit
-   corruptions of all shipped files (2.37 million damaged files, commit 3e6cfcc of /repo; the two FLOOR asserts were removed afterwards): no instance
+   corruptions of all shipped files (2.37 million damaged files, commit 3e6cfcc of /repo; the two FLOOR asserts and the byte-offset slice of wallcons.rs were removed afterwards): no instance
    of any group is reached with a failing value.  A partial operation added to or removed from the
    anchored files changes a count or adds a group: the obligation sites19_accounted then breaks and
    the check looks for a damaged file that reaches it. *)
@@ -18,7 +18,6 @@ Definition c19_groups : list ((string * string) * N * status19) := [
   (("bemodel/src/convert/from_ctehexml.rs", "schedules_from_bdl"), 5%N, ValueChecked);
   (("bemodel/src/convert/from_ctehexml.rs", "shades_from_bdl"), 5%N, ValueChecked);
   (("bemodel/src/convert/from_ctehexml.rs", "windows_and_shades_from_bdl"), 1%N, NotReached);
-  (("hulc/src/bdl/db/wallcons.rs", "try_from"), 1%N, NotReached);
   (("hulc/src/bdl/envelope/geom.rs", "area"), 1%N, ValueChecked);
   (("hulc/src/bdl/envelope/geom.rs", "mirror_y"), 2%N, ValueChecked);
   (("hulc/src/bdl/envelope/geom.rs", "perimeter"), 1%N, ValueChecked);
